@@ -1077,6 +1077,17 @@ void output_text(FILE *pfile)
             {
                reindent_line(pc, cpd.column);
             }
+
+            // Two words are never written back to back, whatever columns a pass left behind
+            // (a negative indent_var_def_blk puts a variable name on top of its type: 'int v0' -> 'intv0')
+            if (  pc->GetColumn() == cpd.column
+               && pc->Len() > 0
+               && cpd.last_char > 0
+               && CharTable::IsKw2(cpd.last_char)
+               && CharTable::IsKw1(pc->GetStr()[0]))
+            {
+               reindent_line(pc, cpd.column + 1);
+            }
             // not the first item on a line
             Chunk *prev = pc->GetPrev();
             log_rule_B("align_with_tabs");
